@@ -146,7 +146,7 @@ def decide(prop, tier, seed, results, known, wall):
                 if a["kind"] in ("inv-init", "inv-pres", "variant", "model-range", "unwind"):
                     undecided.append({"contract": r["contract"], "obligation": oid, "reason": "auxiliary obligation (%s) not discharged: the supplied proof does not fit the current source" % a["kind"], "inputs": f.get("inputs")})
                     continue
-                if aux_failed:
+                if aux_failed and not f.get("confirmed"):
                     undecided.append({"contract": r["contract"], "obligation": oid, "reason": "fails, but an auxiliary obligation of the same function is open"})
                     continue
                 rec = {"obligation": oid, "kind": a["kind"], "label": a["label"], "contract": r["contract"], "target": r["target"],
